@@ -1,5 +1,5 @@
 /* C12 tier B: the tok class produces the token list of the quoting grammar modulo its trimming, and agrees
- * with spiftool_split token for token modulo that trimming, for every input of length <= 3 (quick) / 6
+ * with spiftool_split token for token modulo that trimming, for every input of length <= 3 (quick) / 4
  * (thorough) over {a, b, space, ':', ''', '"', '\'} and the delimiter sets NULL / ":" / " :" (chosen
  * nondeterministically inside each unit).  Memory-safety obligations of everything executed (tok.c, str.c,
  * dlinked_list.c, obj.c, strings.c) are part of each unit; input and delimiter strings end at the last byte
@@ -33,18 +33,21 @@
  *   empty    some grammar token is empty ('' or "")                            (spif_str_trim reads s[-1])
  *   blank    some grammar token is non-empty and all whitespace                (spif_str_trim keeps one blank)
  *   multi    two or more of mixed / trailbs / empty / blank
+ * Bounds: 3 characters need ~4 CPU-minutes per unit, 4 characters ~10, 6 characters exceed 16 GB (str.c
+ * re-allocates on every appended character and every moved block is one more candidate object for each
+ * later access); the 7-character bound of the statement is reached for split and the word utilities only.
  * Quick tier: tok.clean and tok.defects (= every class but clean, in one unit); the five per-class units run
  * in the thorough tier.  Agreement with spiftool_split follows from the split.grammar.* units: split equals
  * the grammar's tokens and tok equals the trimmed grammar tokens on the same inputs. */
 
 /*@unit
 name: tok.clean
-define: V_CLASS=0, VERIF_MAXLEN_Q=3, VERIF_MAXLEN_T=6, VS_OBJS=1024
+define: V_CLASS=0, VERIF_MAXLEN_Q=3, VERIF_MAXLEN_T=4, VS_OBJS=1024
 src: tok.c
 tier: B
-bound: input length <= 3 (quick tier) / <= 6 (thorough tier) over {a,b,space,:,',",\}; delimiter sets NULL, ":", " :"; inputs of class clean; loops unwound 5 / 8 (token loop 5)
+bound: input length <= 3 (quick tier) / <= 4 (thorough tier) over {a,b,space,:,',",\}; delimiter sets NULL, ":", " :"; inputs of class clean; loops unwound 5 / 6 (token loop 5)
 unwind: 5
-unwind_thorough: 8
+unwind_thorough: 6
 flags: --unwindset spif_tok_eval.5:5
 objbits: 10
 backend: cadical
@@ -56,12 +59,12 @@ funcs: spif_tok_eval, spif_tok_new_from_ptr, spif_tok_set_sep, spif_str_new_from
 */
 /*@unit
 name: tok.defects
-define: V_CLASS=6, VERIF_MAXLEN_Q=3, VERIF_MAXLEN_T=6, VS_OBJS=1024
+define: V_CLASS=6, VERIF_MAXLEN_Q=3, VERIF_MAXLEN_T=4, VS_OBJS=1024
 src: tok.c
 tier: B
-bound: input length <= 3 (quick tier) / <= 6 (thorough tier) over {a,b,space,:,',",\}; delimiter sets NULL, ":", " :"; inputs of any class other than clean (the five classes below together); loops unwound 5 / 8 (token loop 5)
+bound: input length <= 3 (quick tier) / <= 4 (thorough tier) over {a,b,space,:,',",\}; delimiter sets NULL, ":", " :"; inputs of any class other than clean (the five classes below together); loops unwound 5 / 6 (token loop 5)
 unwind: 5
-unwind_thorough: 8
+unwind_thorough: 6
 flags: --unwindset spif_tok_eval.5:5
 objbits: 10
 backend: cadical
@@ -73,12 +76,12 @@ funcs: spif_tok_eval, spif_tok_new_from_ptr, spif_tok_set_sep, spif_str_new_from
 */
 /*@unit
 name: tok.mixed
-define: V_CLASS=1, VERIF_MAXLEN_Q=3, VERIF_MAXLEN_T=6, VS_OBJS=1024
+define: V_CLASS=1, VERIF_MAXLEN_Q=3, VERIF_MAXLEN_T=4, VS_OBJS=1024
 src: tok.c
 tier: B
-bound: input length <= 3 (quick tier) / <= 6 (thorough tier) over {a,b,space,:,',",\}; delimiter sets NULL, ":", " :"; inputs of class mixed; loops unwound 5 / 8 (token loop 5)
+bound: input length <= 3 (quick tier) / <= 4 (thorough tier) over {a,b,space,:,',",\}; delimiter sets NULL, ":", " :"; inputs of class mixed; loops unwound 5 / 6 (token loop 5)
 unwind: 5
-unwind_thorough: 8
+unwind_thorough: 6
 flags: --unwindset spif_tok_eval.5:5
 objbits: 10
 backend: cadical
@@ -90,12 +93,12 @@ funcs: spif_tok_eval, spif_tok_new_from_ptr, spif_tok_set_sep, spif_str_new_from
 */
 /*@unit
 name: tok.trailbs
-define: V_CLASS=2, VERIF_MAXLEN_Q=3, VERIF_MAXLEN_T=6, VS_OBJS=1024
+define: V_CLASS=2, VERIF_MAXLEN_Q=3, VERIF_MAXLEN_T=4, VS_OBJS=1024
 src: tok.c
 tier: B
-bound: input length <= 3 (quick tier) / <= 6 (thorough tier) over {a,b,space,:,',",\}; delimiter sets NULL, ":", " :"; inputs of class trailbs; loops unwound 5 / 8 (token loop 5)
+bound: input length <= 3 (quick tier) / <= 4 (thorough tier) over {a,b,space,:,',",\}; delimiter sets NULL, ":", " :"; inputs of class trailbs; loops unwound 5 / 6 (token loop 5)
 unwind: 5
-unwind_thorough: 8
+unwind_thorough: 6
 flags: --unwindset spif_tok_eval.5:5
 objbits: 10
 backend: cadical
@@ -107,12 +110,12 @@ funcs: spif_tok_eval, spif_tok_new_from_ptr, spif_tok_set_sep, spif_str_new_from
 */
 /*@unit
 name: tok.empty
-define: V_CLASS=3, VERIF_MAXLEN_Q=3, VERIF_MAXLEN_T=6, VS_OBJS=1024
+define: V_CLASS=3, VERIF_MAXLEN_Q=3, VERIF_MAXLEN_T=4, VS_OBJS=1024
 src: tok.c
 tier: B
-bound: input length <= 3 (quick tier) / <= 6 (thorough tier) over {a,b,space,:,',",\}; delimiter sets NULL, ":", " :"; inputs of class empty; loops unwound 5 / 8 (token loop 5)
+bound: input length <= 3 (quick tier) / <= 4 (thorough tier) over {a,b,space,:,',",\}; delimiter sets NULL, ":", " :"; inputs of class empty; loops unwound 5 / 6 (token loop 5)
 unwind: 5
-unwind_thorough: 8
+unwind_thorough: 6
 flags: --unwindset spif_tok_eval.5:5
 objbits: 10
 backend: cadical
@@ -124,12 +127,12 @@ funcs: spif_tok_eval, spif_tok_new_from_ptr, spif_tok_set_sep, spif_str_new_from
 */
 /*@unit
 name: tok.blank
-define: V_CLASS=4, VERIF_MAXLEN_Q=3, VERIF_MAXLEN_T=6, VS_OBJS=1024
+define: V_CLASS=4, VERIF_MAXLEN_Q=3, VERIF_MAXLEN_T=4, VS_OBJS=1024
 src: tok.c
 tier: B
-bound: input length <= 3 (quick tier) / <= 6 (thorough tier) over {a,b,space,:,',",\}; delimiter sets NULL, ":", " :"; inputs of class blank; loops unwound 5 / 8 (token loop 5)
+bound: input length <= 3 (quick tier) / <= 4 (thorough tier) over {a,b,space,:,',",\}; delimiter sets NULL, ":", " :"; inputs of class blank; loops unwound 5 / 6 (token loop 5)
 unwind: 5
-unwind_thorough: 8
+unwind_thorough: 6
 flags: --unwindset spif_tok_eval.5:5
 objbits: 10
 backend: cadical
@@ -141,12 +144,12 @@ funcs: spif_tok_eval, spif_tok_new_from_ptr, spif_tok_set_sep, spif_str_new_from
 */
 /*@unit
 name: tok.multi
-define: V_CLASS=5, VERIF_MAXLEN_Q=3, VERIF_MAXLEN_T=6, VS_OBJS=1024
+define: V_CLASS=5, VERIF_MAXLEN_Q=3, VERIF_MAXLEN_T=4, VS_OBJS=1024
 src: tok.c
 tier: B
-bound: input length <= 3 (quick tier) / <= 6 (thorough tier) over {a,b,space,:,',",\}; delimiter sets NULL, ":", " :"; inputs of class multi; loops unwound 5 / 8 (token loop 5)
+bound: input length <= 3 (quick tier) / <= 4 (thorough tier) over {a,b,space,:,',",\}; delimiter sets NULL, ":", " :"; inputs of class multi; loops unwound 5 / 6 (token loop 5)
 unwind: 5
-unwind_thorough: 8
+unwind_thorough: 6
 flags: --unwindset spif_tok_eval.5:5
 objbits: 10
 backend: cadical
